@@ -2,11 +2,13 @@
 # tools/run_all.sh <tier> [ids...] : run checks sequentially, print one line per check with wall time and exit code
 tier=${1:-quick}; shift
 ids=${@:-C01 C02 C03 C04 C05 C06 C07 C08 C09 C10 C11 C12 C13 C14 C15 C16 C17 C18 C19 C20}
-cd /verif
+cd "$(dirname "$0")/.."
+mkdir -p .cache
 for id in $ids; do
   s=$(date +%s)
-  out=$(./check $id --tier $tier 2>&1 | grep -E "^\[C|VIOLATION|INCONCLUSIVE" | head -3 | cut -c1-200)
-  rc=${PIPESTATUS[0]}
+  ./check $id --tier $tier > .cache/run_all.$id.out 2>&1
+  rc=$?
   e=$(date +%s)
-  echo "$id tier=$tier wall=$((e-s))s :: $out"
+  out=$(grep -E "^\[C|VIOLATION|INCONCLUSIVE|KNOWN-FINDING" .cache/run_all.$id.out | head -3 | cut -c1-200)
+  echo "$id tier=$tier rc=$rc wall=$((e-s))s :: $out"
 done
